@@ -8,6 +8,7 @@ import (
 	"fmt"
 	"hash/fnv"
 	"testing"
+	"time"
 
 	"pgregory.net/rapid"
 
@@ -37,7 +38,7 @@ func hash64(b []byte) uint64 {
 // value drawn up front (so rapid's shrinker works), evaluated by eval, counted
 // in the collector; the smallest failing case seen (rapid re-evaluates while
 // shrinking) becomes the replay file.
-func runRapid[C any](t *testing.T, part, kind string, gen *rapid.Generator[C], eval func(c C, trace bool) verdict) {
+func runRapid[C any](t *testing.T, part, kind string, gen *rapid.Generator[C], eval func(c C, trace bool) verdict, reduce func(c C) []C) {
 	col := stats.New(prop, part)
 	var (
 		best     *C
@@ -47,6 +48,22 @@ func runRapid[C any](t *testing.T, part, kind string, gen *rapid.Generator[C], e
 	harnessErr := ""
 	defer func() {
 		if best != nil {
+			// the generators have minimum lengths; finish rapid's shrinking with a
+			// greedy pass that drops single elements while the case keeps failing
+			deadline := time.Now().Add(20 * time.Second)
+			for progress := true; progress && time.Now().Before(deadline); {
+				progress = false
+				for _, cand := range reduce(*best) {
+					if v := eval(cand, false); v.Fail != nil && v.Fail.Kind != "HARNESS" {
+						cc := cand
+						best, progress = &cc, true
+						break
+					}
+				}
+			}
+			if raw, err := json.Marshal(*best); err == nil {
+				bestHash = hash64(raw)
+			}
 			v := eval(*best, true)
 			if v.Fail == nil { // not reproducible in a second evaluation: keep the message of the first
 				v.Fail = kit.Failf("FLAKY", "case failed during the search but passed when re-evaluated for the replay file")
